@@ -86,6 +86,8 @@ def collect_diffs(ctx, trace_path, mode, nchunk=NCHUNK, pair=False):
 
 def feat(r):
     """Input class of a record (part of the failure signature): how a source operand is supplied."""
+    if 'dsel' in r:
+        return 'sdwa'                   # sub-dword addressing form
     codes = [(r[k]['c'], r[k].get('n', 1)) for k in ('s0', 's1', 's2') if r.get(k)]
     if any(193 <= c <= 208 for c, _ in codes):
         return 'neginl'                 # negative inline integer constant
@@ -226,7 +228,9 @@ def corruptions():
         return recs[:i + 1]
 
     def flip_lane(recs, rng):
-        i = pick(recs, rng, lambda r: r['f'] in ('VOP2', 'VOP3a') and r.get('d', {}).get('c', 0) >= 256 and any(r['pre']['exec']))
+        # an integer instruction: float results have lanes that are deliberately unconstrained (any NaN, denormals)
+        i = pick(recs, rng, lambda r: r['f'] in ('VOP2', 'VOP3a') and r.get('d', {}).get('c', 0) >= 256 and any(r['pre']['exec'])
+                 and '_f' not in r.get('nm', '') and 'dsel' not in r)
         if i is None:
             return None
         ex = sum(x << (16 * k) for k, x in enumerate(recs[i]['pre']['exec']))
@@ -399,7 +403,7 @@ def run(ctx, selftest=False):
     triage(ctx, drv, t0, d0, 'c03', ['-sym', sfile, '-seed', ctx.seed], sym=cases)
 
     # 3. code -> specification: corner cross products and seeded random states, both ALUs, both state kinds
-    scale = 4 if thorough else 1
+    scale = 25 if thorough else 1
     gen_args = ['-mode', 'c03', '-seed', ctx.seed, '-scale', scale]
     t1 = os.path.join(ctx.scratch, 'trace_c03.ndjson')
     st1 = run_driver(ctx, drv, gen_args + ['-out', t1])
@@ -414,7 +418,11 @@ def run(ctx, selftest=False):
                     'traces_validated_against_impl': len(recs0) + len(recs1),
                     'records_rejected': len(d0) + len(d1), 'opcodes_with_full_reference': len(per),
                     'skipped_decode_mismatch': st1.get('DecodeMismatch', 0) + st1.get('DecodeError', 0)})
-    ctx.cov['per_opcode'] = {k: '%s:%d' % (v['name'], v['records']) for k, v in sorted(per.items())}
+    ctx.cov['per_opcode'] = {k: '%s: %d records, full reference' % (v['name'], v['records']) for k, v in sorted(per.items())}
+    ctx.cov['lanewise_only_opcodes'] = ('no exact reference (checked by C06 only): VOP1 32-37,39,76 (exp/log/rcp/rcp_iflag/rsq/rcp_f64/sqrt/'
+                                        'log_legacy), VOP3 478,479,482,483 (div_fixup/div_fmas), VOP3b 480,481 (div_scale), VOP3P 944-946 '
+                                        '(pk_fma/mul/add_f32); handlers of opcodes the architecture\'s manual does not define: GCN3 VOP2 52-54, '
+                                        'VOP3 511,520; CDNA3 VOP2 22, VOP1 76, VOP3 449')
     ctx.sample({'record_excerpt': {k: v for k, v in recs1[0].items() if k in ('arch', 'f', 'op', 'nm', 'pre', 'post', 's0', 's1', 'd')}})
 
     # 4. binding self-test
@@ -427,7 +435,7 @@ def run(ctx, selftest=False):
         'binary32 denormal inputs/results are not constrained (MODE.FP_DENORM is not modelled by the simulator)',
         'signalling NaNs and NaN payloads are outside the checked domain; any NaN is accepted where the result is NaN',
         'transcendental and division-helper opcodes (exp/log/rcp/rsq/sqrt/div_*) have no exact reference: C06 only',
-        'SDWA/DPP, OMOD and CLAMP are not generated; VCC_HI / EXEC_HI as destinations belong to C07',
+        'DPP, OMOD, CLAMP and SDWA modifiers (SEXT/NEG/ABS) are not generated; VCC_HI / EXEC_HI as destinations belong to C07',
     ]
 
 
